@@ -6,6 +6,11 @@ under this property, because every reverse value is read from that relation; and
 reverse_references.get_reverse_adjustments showed that it edits the container it receives from
 relation.get_affected_rows in place; symmetry after a *rejected* edit therefore also needs that
 container to be the caller's own copy and never the relation's live index entry.
+
+Reading the code: every rule function is evaluated through H.guarded_views -- on the source as
+written and on behaviour-preserving normal forms of it (see _h_C.py / _h_C_norm.py) -- and slots
+are filled by role (flow origins, guard atoms, return cases, conditions as boolean formulas),
+not by statement shape or local names.
 """
 import ast
 import copy
@@ -81,9 +86,14 @@ def _action_field(r, p_action, i, fields):
 
 def _same_object(flow, e1, n1, e2, n2):
   """Both expressions have one origin, and it is the same one."""
-  r1, r2 = flow.roots(e1, n1), flow.roots(e2, n2)
-  return len(r1) == 1 and len(r2) == 1 and r1[0].node is r2[0].node and r1[0].path == r2[0].path \
-      and not isinstance(r1[0].node, str)
+  def origins(e, n):
+    out = {}
+    for r in flow.roots(e, n):
+      out[(id(r.node) if not isinstance(r.node, str) else r.node, r.path)] = r
+    return out
+  r1, r2 = origins(e1, n1), origins(e2, n2)
+  return len(r1) == 1 and set(r1) == set(r2) and \
+      not isinstance(next(iter(r1.values())).node, str)
 
 
 def convert_calls_prepare(run, w, RID, with_adds):
@@ -126,11 +136,23 @@ def convert_calls_prepare(run, w, RID, with_adds):
     # the adjustments (element 1 of the result) are appended to the returned list in the same
     # iteration, on every path
     ext = set()
+    def from_prepare(e, nid):
+      rs = flow.roots(e, nid)
+      return bool(rs) and all(r.kind == "call" and r.node is c and r.path == (("idx", 1),)
+                              for r in rs)
     for (m, c2, nm2) in fn.calls():
       if isinstance(c2.func, ast.Attribute) and c2.func.attr == "extend" and len(c2.args) == 1 \
-          and _same_object(flow, c2.func.value, m.id, r_extra, rn.id):
-        rs = flow.roots(c2.args[0], m.id)
-        if rs and all(r.kind == "call" and r.node is c and r.path == (("idx", 1),) for r in rs):
+          and _same_object(flow, c2.func.value, m.id, r_extra, rn.id) and \
+          from_prepare(c2.args[0], m.id):
+        ext.add(m.id)
+    for m in cfg.nodes:
+      # `extras += adjustments` extends the same list in place
+      if m.kind == "stmt" and isinstance(m.stmt, ast.AugAssign) and \
+          isinstance(m.stmt.op, ast.Add) and isinstance(m.stmt.target, ast.Name) and \
+          from_prepare(m.stmt.value, m.id):
+        before = flow._roots_of_name(m.stmt.target.id, m.stmt.target, m.id, set(), 0)
+        want = flow.roots(r_extra, rn.id)
+        if before and all(any(x.node is y.node for y in want) for x in before):
           ext.add(m.id)
     ok = bool(ext) and cfg.postdominated_by(n.id, ext, exits={lid, cfg.exit.id})
     wit = None
